@@ -172,6 +172,31 @@ def resolve (m : Model) (obj : Obj) (lower : List (List ℕ)) (add : Bool) (twin
       | some (c, o) => .ok (m, c, o)
       | none => if !add then .error .key else .ok (m.addNode obj lower)
 
+/-- `tuple(self.lower.lookup(obj.section(*args)).node for args in …)` for a list of sections,
+    threading the state; `look` is the lookup one catalogue level down. -/
+def lookupList (look : Model → Obj → Except MErr (Model × ℕ × Orientation)) (obj : Obj) :
+    List Sec → Model → Except MErr (Model × List ℕ)
+  | [], m => .ok (m, [])
+  | sec :: rest, m =>
+    match look m (obj.sect sec) with
+    | .error e => .error e
+    | .ok (m1, id, _) =>
+      match lookupList look obj rest m1 with
+      | .error e => .error e
+      | .ok (m2, ids) => .ok (m2, id :: ids)
+
+/-- `for i in range(pardim): lower_nodes.append(tuple(… for args in sections(pardim, i)))` -/
+def lookupLower (look : Model → Obj → Except MErr (Model × ℕ × Orientation)) (obj : Obj) (pd : ℕ) :
+    List ℕ → Model → Except MErr (Model × List (List ℕ))
+  | [], m => .ok (m, [])
+  | i :: rest, m =>
+    match lookupList look obj (sections pd i) m with
+    | .error e => .error e
+    | .ok (m1, ids) =>
+      match lookupLower look obj pd rest m1 with
+      | .error e => .error e
+      | .ok (m2, lower) => .ok (m2, ids :: lower)
+
 /-- `ObjectCatalogue.lookup(obj, add, raise_on_twins)`; the catalogue level is `obj.pardim`
     (higher catalogues pass the object down).  `fuel ≥ obj.pardim`. -/
 def lookup : ℕ → Model → Obj → Bool → List ℕ → Except MErr (Model × ℕ × Orientation)
@@ -179,15 +204,11 @@ def lookup : ℕ → Model → Obj → Bool → List ℕ → Except MErr (Model 
     if obj.pardim = 0 then lookupPoint m obj add
     else match fuel with
     | 0 => .error .fuel
-    | fuel + 1 => do
-      let pd := obj.pardim
-      -- lower_nodes: for i in range(pardim): tuple(self.lower.lookup(obj.section(*args)) …)
-      let (m, lower) ← (List.range pd).foldlM (fun (acc : Model × List (List ℕ)) i => do
-          let (m', ids) ← (sections pd i).foldlM (fun (acc2 : Model × List ℕ) sec => do
-              let (m'', id, _) ← lookup fuel acc2.1 (obj.sect sec) add twins
-              pure (m'', acc2.2 ++ [id])) (acc.1, [])
-          pure (m', acc.2 ++ [ids])) (m, [])
-      resolve m obj lower add twins
+    | fuel + 1 =>
+      match lookupLower (fun m' y => lookup fuel m' y add twins) obj obj.pardim
+          (List.range obj.pardim) m with
+      | .error e => .error e
+      | .ok (m1, lower) => resolve m1 obj lower add twins
 
 /-- `ObjectCatalogue.nodes(d)`. -/
 def nodesOf (m : Model) (d : ℕ) : List ℕ :=
@@ -196,12 +217,11 @@ def nodesOf (m : Model) (d : ℕ) : List ℕ :=
     let lv := m.level d
     uniquify (lv.keys.toList.flatMap (fun k => lv.get k))
 
-/-- `NodeView.section(*section)` for the view `(nodeId, ori)`.
-    `propertyFrame = true`: the section of the reference object is taken in the REFERENCE frame
-    (`ori.map_section(section)`), which is what the docstring and property C17 demand;
-    `false`: literally as the pinned code, `self.node.obj.section(*section)` with the section
-    of the MAPPED frame. -/
-def viewSection (m : Model) (nodeId : ℕ) (ori : Orientation) (args : Sec) (propertyFrame : Bool) :
+/-- `NodeView.section(*section)` for the view `(nodeId, ori)`: the section of the underlying
+    object is taken in the REFERENCE frame, `self.node.obj.section(*ori.map_section(section))`
+    (code after `fix:` 8e83d07; the snapshot used the section of the mapped frame — finding class
+    `nodeview-section-wrong-frame`). -/
+def viewSection (m : Model) (nodeId : ℕ) (ori : Orientation) (args : Sec) :
     Except MErr (ℕ × Orientation) := do
   let n := m.node nodeId
   let sec := checkSection args n.pardim
@@ -209,8 +229,7 @@ def viewSection (m : Model) (nodeId : ℕ) (ori : Orientation) (args : Sec) (pro
   let refSec := ori.mapSection sec
   let some refIdx := sectionToIndex refSec | .error .runtime
   let some lowerId := (n.lower.getD tgt [])[refIdx]? | .error .runtime
-  let refOri ← Orientation.compute (m.node lowerId).obj
-    (n.obj.sect (if propertyFrame then refSec else sec))
+  let refOri ← Orientation.compute (m.node lowerId).obj (n.obj.sect refSec)
   let myOri := ori.viewSection sec
   pure (lowerId, refOri * myOri)
 
